@@ -110,6 +110,35 @@ Qed.
 Theorem heap_time_is_early_enough s : ReachF s -> forall t L, In (t, L) (heap s) -> forall e, In e (lst s L) -> t <= eeff e.
 Proof. intros HR. apply (H_heapt _ (IH _ (inv_reach _ HR))). Qed.
 
+(* in terms of the STORED deadline: only without skew (the entry was swapped in at the clock value its adder had
+   read) and without lag (the timer thread parked at the clock value it had read) *)
+Theorem never_sleeps_past_stored_deadline_partial s : ReachF s -> tpc s = W -> tok s = false ->
+  forall L e, In e (lst s L) -> eeff e = edl e -> tlag s = 0 ->
+  match twake s with Some T => T <= edl e | None => False end \/ unpark_in_flight s L.
+Proof.
+  intros HR EP ET L e I E0 E1. destruct (never_sleeps_past_deadline s HR EP ET L e I) as [Wk|F]; auto.
+  left. unfold wakes_by in Wk. destruct (twake s); auto. lia.
+Qed.
+
+(* ... and with skew the stored deadline can be passed: adder 0 reads the clock (0), is delayed; adder 1 reads the
+   clock 5 ticks later and completes its push first; adder 0's entry (deadline 5) ends up BEHIND adder 1's entry
+   (deadline 10) in the interval list, whose recorded heap time is 10: the timer thread sleeps until 10.
+   The lateness is the delay of adder 0 itself between `now()` and its head swap (DESIGN C08.v). *)
+Definition skew_witness : list action :=
+  [Add 0 5 1; Tick 5; Add 1 5 2;
+   AStep 1; AStep 1; AStep 1; AStep 1; AStep 1; AStep 1;     (* adder 1: swap, tail.read (head), link, fetch_add, heap push, take = None *)
+   AStep 0; AStep 0; AStep 0;                                (* adder 0: swap, tail.read (not head), link *)
+   TStep 0; TStep 0; TStep 0; TStep 0; TStep 0; TStep 0; TStep 0].   (* timer: drain, store, is_empty, now() = 5, peek: 10 > 5, park_timeout(5) *)
+Theorem never_sleeps_past_stored_deadline_refuted :
+  exists s, ReachF s /\ quiescent s /\ twake s = Some 10 /\ exists e, In e (lst s 5) /\ edl e = 5 /\ eeff e = 10.
+Proof.
+  destruct (run false init skew_witness) as [s|] eqn:E; [|vm_compute in E; discriminate].
+  exists s. split; [eapply run_reach; [apply R0 | exact E]|].
+  vm_compute in E. injection E as <-. cbn. repeat split.
+  - intros [|[|a]]; reflexivity.
+  - eexists. split; [right; left; reflexivity|]. split; reflexivity.
+Qed.
+
 (* ---- the mutant: the sleep time is computed BEFORE the handle is stored --------------------------------- *)
 Definition mutant_witness : list action :=
   [Add 0 0 1; AStep 0; AStep 0; AStep 0; AStep 0;          (* adder 0: swap, tail.read, link, fetch_add = 0 *)
